@@ -11,23 +11,28 @@ Record hist := mkHist {
   h_now : Z;                  (* ledger: deployment ledger + the Advance calls seen *)
   h_paused : bool;            (* the last successful pause/unpause was a pause *)
   h_listed : addr -> bool;    (* the last successful list change of the address put it on the list *)
-  h_armed : bool              (* an upgrade succeeded since the last successful migration *)
+  h_armed : bool;             (* an upgrade succeeded since the last successful migration *)
+  h_mgr : addr -> bool        (* the last successful grant/revoke/renounce of "manager" for the address was a grant
+                                 (constructor: the manager argument) *)
 }.
 
 Definition hist0 (c : cfg) : hist :=
   mkHist (now0 c) false
          (match knd c with KAllowEx => fun a => N.eqb a (owner c) | _ => fun _ => false end)  (* the constructor allows the admin *)
-         false.
+         false
+         (fun a => N.eqb a (manager c)).
 
 Definition hist_upd (h : hist) (o : op) : hist :=
   match o with
-  | Advance n => mkHist (h_now h + n) (h_paused h) (h_listed h) (h_armed h)
-  | Pause _ => mkHist (h_now h) true (h_listed h) (h_armed h)
-  | Unpause _ => mkHist (h_now h) false (h_listed h) (h_armed h)
-  | AllowUser u _ | BlockUser u _ => mkHist (h_now h) (h_paused h) (updB (h_listed h) u true) (h_armed h)
-  | DisallowUser u _ | UnblockUser u _ => mkHist (h_now h) (h_paused h) (updB (h_listed h) u false) (h_armed h)
-  | Upgrade _ _ | LibEnable => mkHist (h_now h) (h_paused h) (h_listed h) true
-  | Migrate _ _ | LibComplete => mkHist (h_now h) (h_paused h) (h_listed h) false
+  | Advance n => mkHist (h_now h + n) (h_paused h) (h_listed h) (h_armed h) (h_mgr h)
+  | Pause _ => mkHist (h_now h) true (h_listed h) (h_armed h) (h_mgr h)
+  | Unpause _ => mkHist (h_now h) false (h_listed h) (h_armed h) (h_mgr h)
+  | AllowUser u _ | BlockUser u _ => mkHist (h_now h) (h_paused h) (updB (h_listed h) u true) (h_armed h) (h_mgr h)
+  | DisallowUser u _ | UnblockUser u _ => mkHist (h_now h) (h_paused h) (updB (h_listed h) u false) (h_armed h) (h_mgr h)
+  | Upgrade _ _ | LibEnable => mkHist (h_now h) (h_paused h) (h_listed h) true (h_mgr h)
+  | Migrate _ _ | LibComplete => mkHist (h_now h) (h_paused h) (h_listed h) false (h_mgr h)
+  | GrantManager a _ => mkHist (h_now h) (h_paused h) (h_listed h) (h_armed h) (updB (h_mgr h) a true)
+  | RevokeManager a _ | RenounceManager a => mkHist (h_now h) (h_paused h) (h_listed h) (h_armed h) (updB (h_mgr h) a false)
   | _ => h
   end.
 
@@ -133,15 +138,19 @@ Definition expected_ok (c : cfg) (h : hist) (v : view) (cl : call) : bool :=
   | WhenNotPaused => kind_eqb k KPausLib && negb (h_paused h)
   | WhenPaused => kind_eqb k KPausLib && h_paused h
   | AllowUser _ operator | DisallowUser _ operator =>
-      (kind_eqb k KAllowEx && N.eqb operator (manager c) && has_auth au operator) || kind_eqb k KAllowLib
+      (kind_eqb k KAllowEx && h_mgr h operator && has_auth au operator) || kind_eqb k KAllowLib
   | BlockUser _ operator | UnblockUser _ operator =>
-      (kind_eqb k KBlockEx && N.eqb operator (manager c) && has_auth au operator) || kind_eqb k KBlockLib
+      (kind_eqb k KBlockEx && h_mgr h operator && has_auth au operator) || kind_eqb k KBlockLib
   | SetCap x => kind_eqb k KCapLib && negb (x <? 0)
   | Upgrade w operator =>
       (kind_eqb k KUpgV1 || kind_eqb k KUpgV2) && has_auth au operator && N.eqb operator (owner c) && w
   | Migrate _ operator => kind_eqb k KUpgV2 && has_auth au operator && N.eqb operator (owner c) && h_armed h
   | LibEnable | LibComplete => kind_eqb k KUpgLib
   | LibEnsure => kind_eqb k KUpgLib && h_armed h
+  | GrantManager _ caller => (kind_eqb k KAllowEx || kind_eqb k KBlockEx) && has_auth au caller && N.eqb caller (owner c)
+  | RevokeManager a caller =>
+      (kind_eqb k KAllowEx || kind_eqb k KBlockEx) && has_auth au caller && N.eqb caller (owner c) && h_mgr h a
+  | RenounceManager caller => (kind_eqb k KAllowEx || kind_eqb k KBlockEx) && has_auth au caller && h_mgr h caller
   | o =>
       has_entry k o && gate_open c h v o && base_ok c h v au o
       && implies (kind_eqb k KPaus && is_mint o) (has_auth au (owner c))
